@@ -171,6 +171,15 @@ def ceval(e: ast.AST, env: dict, stubs: dict | None = None):
                 return getattr(recv, m)(*[ceval(a, env, stubs) for a in e.args])
             if "__pe__" in stubs and isinstance(recv, (dict, list, set)) and m in ("setdefault", "pop", "copy", "union", "intersection", "difference", "issubset"):
                 return getattr(recv, m)(*[ceval(a, env, stubs) for a in e.args])
+            import re as _re
+            if isinstance(recv, _re.Pattern) and m in ("match", "search", "fullmatch", "findall", "split", "sub"):
+                argv = [ceval(a, env, stubs) for a in e.args]
+                if any(isinstance(a, _Unknown) for a in argv):
+                    return next(a for a in argv if isinstance(a, _Unknown))
+                r_ = getattr(recv, m)(*argv)
+                return list(r_) if m in ("findall", "split") else r_
+            if isinstance(recv, _re.Match) and m in ("group", "groups", "start", "end", "span", "groupdict"):
+                return getattr(recv, m)(*[ceval(a, env, stubs) for a in e.args])
         raise Unsupported(f"partial evaluation: call `{norm(e)}`")
     if isinstance(e, (ast.ListComp, ast.GeneratorExp, ast.SetComp)):
         out = []
